@@ -442,6 +442,16 @@ def registered_image_clause(model, rep, funcs):
                         ok = False
                     det += f"image = {norm_src(img_e) if img_e is not None else None}, molecules = {norm_src(mol) if mol is not None else None} (group loop yields {key}, {grp})"
                 break
+        if ok is None:
+            # not the recognised loop: is a per-tomogram loader built from an image that was not looked up by the group's key?
+            ctor_all = [c for c in calls_in(f) if dotted(c.func) == "SubtomogramLoader"]
+            by_key = [n for n in walk_no_nested(f.node) if isinstance(n, ast.Subscript) and norm_src(n.value).endswith("_images")]
+            positional = [n for n in walk_no_nested(f.node) if isinstance(n, ast.Call) and dotted(n.func) == "zip" and
+                          any("_images" in norm_src(a_) for a_ in n.args)]
+            if ctor_all and not by_key and positional:
+                ok = False
+                det = (f"`{norm_src(positional[0])[:90]}` pairs molecule groups with images by position: groups come in order of first appearance of the id, images "
+                       "in registration order, so a sorted / sampled batch or an unused tomogram gives every group the wrong image")
         rep.ob("SAME", f.anchor, "each per-tomogram loader gets the image registered under the key of the very group whose molecules it gets", ok,
                det, node=f.node, fn=f, clause="2 registered tomogram", stmt="def __iter__")
     f = funcs.get("acryo/loader/_batch.py::LoaderAccessor.__getitem__")
